@@ -218,7 +218,8 @@ Fixpoint comp_all (fuel : nat) (remaining : list nat) (seen : list nat) (fl : li
       let '(conn, seen') := comp_grow (S (length (g_meshes g))) [se] 0 (se :: seen) in
       let rest := filter (fun m => negb (memn m conn)) remaining in
       let tail := comp_all f rest seen' fl in
-      if Nat.ltb 1 (length conn) && negb (f_iso (nth se fl flags0)) then conn :: tail else tail
+      (* conn.size()>=1 (repaired: a component bounded by a single mesh is a part too) && !conn.front()->isolated() *)
+      if Nat.leb 1 (length conn) && negb (f_iso (nth se fl flags0)) then conn :: tail else tail
     end
   end.
 
@@ -242,9 +243,10 @@ Fixpoint first_index {A} (p : A -> bool) (l : list A) (k : nat) : option nat :=
 Definition outermost_domain : option nat :=
   first_index (fun d => forallb (fun b => negb (b_inside b)) d) (g_doms g) 0.
 
-(* set_outermost_domain: every mesh of every boundary of that domain *)
+(* set_outermost_domain: every mesh of every boundary of that domain - except isolated ones (repaired:
+   Interface::set_to_outermost leaves a mesh alone whose vertices carry no unknown) *)
 Definition set_outermost (fl : list flags) (k : nat) : list flags :=
-  fold_left (fun fl m => let f := nth m fl flags0 in upd fl m (mkFlags (f_cb f) (f_iso f) true))
+  fold_left (fun fl m => let f := nth m fl flags0 in upd fl m (mkFlags (f_cb f) (f_iso f) (f_out f || negb (f_iso f))))
             (flat_map (fun b => map snd (b_om b)) (dom k)) fl.
 
 Definition count_inside (d : list gbound) : nat := length (filter b_inside d).
